@@ -904,7 +904,7 @@ func (b *SystemBackend) handleRotateBackupRetrieve() framework.OperationFunc {
 		}
 
 		recovery := strings.Contains(req.Path, "recovery")
-		backup, err := b.Core.sealManager.RetrieveRotationBackup(ctx, ns.Path, recovery)
+		backup, err := b.Core.sealManager.RetrieveRotationBackup(ctx, ns, recovery)
 		if err != nil {
 			return handleError(fmt.Errorf("unable to look up backed-up keys: %w", err))
 		}
@@ -948,7 +948,7 @@ func (b *SystemBackend) handleRotateBackupDelete() framework.OperationFunc {
 		}
 
 		recovery := strings.Contains(req.Path, "recovery")
-		if err := b.Core.sealManager.DeleteRotationBackup(ctx, ns.Path, recovery); err != nil {
+		if err := b.Core.sealManager.DeleteRotationBackup(ctx, ns, recovery); err != nil {
 			return handleError(err)
 		}
 
